@@ -1072,7 +1072,10 @@ def _m_unused_nodes(m):
     return _count(
         m,
         lambda gl: (len(gl.initializers) if hasattr(gl, "initializers") else 0)
-        + sum(1 + len(n.inputs) + sum(1 for o in n.outputs if o.name) + len(n.attributes) for n in gl),
+        # every rewrite of the pass lowers one of: node count, input slots, output slots (trailing blank
+        # outputs are truncated - an IR-only change, serde drops trailing empty names anyway), named
+        # outputs (an unused optional output is blanked), attributes (training_mode)
+        + sum(1 + len(n.inputs) + len(n.outputs) + sum(1 for o in n.outputs if o.name) + len(n.attributes) for n in gl),
     )
 
 
